@@ -182,8 +182,11 @@ def build_driver():
     if rc != 0:
         return False, order
     fams = sorted(os.path.basename(p) for p in glob.glob(os.path.join(ROOT, "ocaml", "fam_*.ml")))
+    # helper glue modules (e.g. ttglue.ml): everything that is not glue/driver/fam_*, alphabetical
+    helpers = sorted(os.path.basename(p) for p in glob.glob(os.path.join(ROOT, "ocaml", "*.ml"))
+                     if os.path.basename(p) not in ("glue.ml", "driver.ml") and not os.path.basename(p).startswith("fam_"))
     cmd = ["ocamlfind", "ocamlopt", "-O3", "-unboxed-types", "-w", "-a", "-package", "zarith", "-linkpkg"]
-    cmd = ["ocamlfind", "ocamlopt", "-w", "-a", "-package", "zarith", "-linkpkg"] + order.split() + ["glue.ml"] + fams + ["driver.ml", "-o", "driver"]
+    cmd = ["ocamlfind", "ocamlopt", "-w", "-a", "-package", "zarith", "-linkpkg"] + order.split() + ["glue.ml"] + helpers + fams + ["driver.ml", "-o", "driver"]
     rc, log, _ = sh(cmd, cwd=out, timeout=900)
     if rc != 0 or not os.path.exists(os.path.join(out, "driver")):
         return False, log
